@@ -36,7 +36,9 @@ MANIFEST = {
                  "environment choice (XReach): every such state is a reachable state of the model in which the refused threads never run, hence exactly-once / arguments / join-after-completion / result / flags / record "
                  "lifetime hold for all failure patterns; `join_eventually` is FALSE then (witness: join() sleeps forever with the job queued and no worker) and ~ThreadPool hangs on the leaked _threadCount (witness); "
                  "`result_store_before_destroy` (when ~Future<A> destroys `result` no thread is at or before the result store of any call on that future), `args_as_at_start`, `restart_waits_for_previous_call`, "
-                 "`restart_arms_like_fresh`, `flags_after_join`.  Tie to the code on every run: the real thread pool "
+                 "`restart_arms_like_fresh`, `flags_after_join`.  Round 4: `args_as_at_start_all_arities` / `member_args_as_at_start` (Call.hpp capture record for any number of arguments, CallModel.lean), `tail_rule_is_safety_neutral`, "
+                 "`join_loop_skips_never_started_context`, `finite_progress_with_refused_threads`, the repaired failure branch of fixes/future/0006 as XReachFix with three kernel-evaluated runs of the repaired real code "
+                 "(`repaired_branch_destructor_completes`, `repaired_branch_recovers_when_a_later_creation_succeeds`, `repaired_branch_join_still_waits_when_no_worker_can_be_created`).  Tie to the code on every run: the real thread pool "
                  "(private ThreadPool built with queue sizes 1/2/4/8 and thread limits by #including Future.cpp) is run under deviation-bounded exhaustive and random schedules; "
                  "the Lean model replays every scheduler step and must predict the same enabled set, operation, object, returned value and events; an independent Python "
                  "reference checks exactly-once, arguments, join-after-completion, result, flags after join, record freed once, no POSIX misuse, no deadlock on the "
@@ -46,7 +48,7 @@ MANIFEST = {
                  "points of the implementation run are atomic operations and pthread calls only (plain volatile reads are not separately interleaved in the run, they are in the "
                  "theorems); usize wrap-around outside.  Nothing OPEN: `join_eventually` (every weakly fair run reaches a state where every thread has finished and every call was executed and freed exactly once), `fair_runs_terminate`, `progresses_wf`, `no_stuck`, `terminal_state_is_complete` are proved on the FULL model of the repaired code; the scheduler verdict, the exhaustive model exploration of small configurations and the random model walks are additional tests.  The model mirrors the REPAIRED code "
                  "(fixes/future/0001-0005, fixes/sync/0001); on the unrepaired tree the check reports the defects with concrete failing schedules.  Round 3: failing Thread::start: XReach is exact up to the join loop of ~ThreadPool (tail replayed by the driver, OPEN as a theorem); "
-                 "the liveness theorems assume that thread creation succeeds (shown false otherwise); the repair of the _threadCount leak of the failing branch is proposed in docs/future.md, not applied; Call.hpp arities other than Args2: tie only (request `arity`)."),
+                 "the liveness theorems assume that thread creation succeeds (shown false otherwise); the _threadCount leak of the failing branch is repaired by fixes/future/0006 (error path outside C10's quantifier; runs without a refused creation are byte-identical); the driver follows whichever failure branch the library shows in the trace; safety with refused creations is proved for the original branch only, the repaired branch is replayed; Call.hpp: generic capture model for all arities, pool model = Args2 instance."),
         "design_ref": "DESIGN.md 3/C10",
     }
 }
@@ -739,6 +741,7 @@ def check(ctx):
         if r.get("create_failed"):
             sf = stats["spawn_failure"]
             sf["runs"] += 1
+            sf["failure_branch_of_the_library"] = "repaired (fixes/future/0006: reservation undone)" if r.get("sfix") else "original (_threadCount stays incremented)"
             sf["failed_creations"] += r["create_failed"]
             if r.get("limit"):
                 sf["limit_" + r["limit"] + "_waits_forever"] += 1
@@ -886,8 +889,9 @@ def arity_stream(ctx, exe, stats):
     stats["arity"] = {"requests": len(reqs), "passed": ok, "value_checks_per_request": ARITY_CHECKS}
 
 
-OPEN_STATEMENTS = ["PropsSpawnFail.lean: tail of ~ThreadPool after its join loop passed a never-started context (replayed, not proved); positive liveness with refused thread creations",
-                   "PropsCall.lean: Call.hpp arities other than Args2 are exercised on the real code only (harness request `arity`)"]      # join_eventually is proved outright (Props.lean) since round 2 / fix 0005
+OPEN_STATEMENTS = ["PropsSpawnFail.lean: safety theorems with refused thread creations are proved for the ORIGINAL failure branch (XReach ⊆ Reach); the REPAIRED branch (fixes/future/0006, XReachFix) is modelled, replayed and kernel-evaluated on three runs, its safety is not transferred (runs leave Reach while _threadCount is transiently too high; needs the handler pcs in Frame)",
+                   "PropsSpawnFail.lean: worker steps after the tail rule of the original branch fired (the rule itself is proved safety-neutral); positive liveness (join_eventually under 'a worker exists or a creation eventually succeeds'): only finite progress is proved",
+                   "PropsCall.lean: the pool model carries the Args2 instance of the generic capture record (CallModel.lean, all arities); the header -> CallModel translation is tied by the harness request `arity`"]      # join_eventually is proved outright (Props.lean) since round 2 / fix 0005
 
 
 def replay(ctx, path):
